@@ -12,7 +12,7 @@ package openapi3filter
 
 //@ extend func ValidateRequestBody
 //@   assuming input != nil && input.Request != nil && requestBody != nil
-//@   assuming input.Request.GetBody == nil
+//@   assuming @C06 input.Request.GetBody == nil
 //@   ensures @C06 [missing-required-body] old(bodyLen(input)) == 0 ==> ((result == nil) <==> !old(requestBody.Required))
 //@   ensures @C06 [no-declared-content] old(bodyLen(input)) > 0 && old(len(requestBody.Content)) == 0 ==> result == nil
 //@   ensures @C06 [undeclared-content-type] old(bodyLen(input)) > 0 && old(len(requestBody.Content)) > 0 && lookup(old(requestBody.Content), old(bodyCT(input))) == nil ==> result != nil
